@@ -4,9 +4,10 @@ from __future__ import annotations
 import ast
 from typing import Dict, List, Optional, Set, Tuple
 
+from .pathflow import uses_only_name_files
 from .core import AnalysisError, Report
 from .effects import Effects, FuncId, FS_READ, FS_WRITE, MAY_REJECT, NONDET
-from .prog import (ClassInfo, ModuleInfo, Program, dotted, enclosing, func_params, guards_of, inline_locals,
+from .prog import (ClassInfo, attr_def, ModuleInfo, Program, dotted, enclosing, func_params, guards_of, inline_locals,
                    local_assignments, parent, stmt_of, unparse, walk_no_nested)
 
 SWALLOWING = {"Exception", "BaseException", "ParseBaseException", "ParseException",
@@ -364,6 +365,16 @@ MUTATORS = {"append", "extend", "insert", "pop", "remove", "clear", "sort", "rev
             "setdefault", "add", "discard", "popitem", "__setitem__"}
 
 
+def _same_file_call(eff, n, mi) -> bool:
+    if not isinstance(n, ast.Call):
+        return False
+    from .prog import dotted
+    d = dotted(n.func) or ""
+    if eff.canon(d, mi) in ("os.path.abspath", "osp.abspath") or d in ("os.path.abspath", "osp.abspath"):
+        return len(n.args) == 1
+    return isinstance(n.func, ast.Attribute) and n.func.attr == "absolute" and not n.args
+
+
 def rule_no_nondeterminism(ctx, rep: Report, rid="R1"):
     eff = effects_engine(ctx)
     reach = eff.reachable(entry_fids(ctx))
@@ -380,6 +391,8 @@ def rule_no_nondeterminism(ctx, rep: Report, rid="R1"):
     for fid in sorted(reach, key=repr):
         mi, fn, ci = eff.funcs[fid]
         nd = eff.direct(fid).get(NONDET, [])
+        # abspath / absolute read the working directory, but name the same file: harmless where the value only ever names a file
+        nd = [n for n in nd if not (_same_file_call(eff, n, mi) and uses_only_name_files(eff, n, fn, mi, ci))]
         rep.add(rid, f"nondet-free:{fid.qual}", not nd,
                 "generation must depend on inputs and options only; this function reads "
                 + ", ".join(f"{unparse(n)[:40]}" for n in nd[:3]),
@@ -591,6 +604,11 @@ def _roots(fn, e: ast.AST, depth=6, _seen=None) -> Set[str]:
         if isinstance(x, ast.Attribute):
             dn = dotted(x)
             if dn and dn.startswith("self."):
+                own = attr_def(fn, dn.split(".")[1], getattr(x, "lineno", None)) if dn.count(".") == 1 and d > 0 and getattr(x, "lineno", None) else None
+                if own is not None and ("@" + dn) not in _seen:
+                    _seen.add("@" + dn)           # bound by this very function before the use: what it was bound to decides
+                    visit(own, d - 1)
+                    return
                 out.add(dn)
                 return
         if isinstance(x, ast.Constant):
@@ -2936,3 +2954,47 @@ def rule_text_reaches_the_parser_as_read(ctx, rep: Report, rid="L7", min_sites=3
     rep.units["functions_reading_interface_text"] = n
     if n < min_sites:
         raise AnalysisError(f"{rep.prop}/{rid}: only {n} functions that read interface text for parsing were found")
+
+
+# ------------------------------------------------------------------------------------------ configuration fixed at construction
+def rule_configuration_is_fixed(ctx, rep: Report, rid="R11", classes=("PybindWrapper", "MatlabWrapper")):
+    """What a wrapper object was configured with - every attribute its constructor computes from a constructor argument
+    (module name, namespaces, ignore list, serialization switch, templates) - is never re-bound or changed in place by another
+    method.  A method that does (wrap_submodule renaming the module to the part it wraps, a helper appending to the ignore list)
+    makes the next call on the same object generate for other options than the ones it was built with: the output then depends
+    on the call history, and the script (a fresh object per run) no longer produces what the API produces."""
+    prog = ctx.prog
+    total = 0
+    for cname in classes:
+        ci = prog.cls(cname)
+        init = prog.find_method(ci, "__init__")
+        if not init:
+            raise AnalysisError(f"{rep.prop}/{rid}: {cname}.__init__ not found")
+        params = set(func_params(init[1])) - {"self"}
+        cfg: Dict[str, ast.AST] = {}
+        for st in walk_no_nested(init[1]):
+            tgts = st.targets if isinstance(st, ast.Assign) else ([st.target] if isinstance(st, ast.AnnAssign) and st.value is not None else [])
+            for t in tgts:
+                if isinstance(t, ast.Attribute) and isinstance(t.value, ast.Name) and t.value.id == "self" and \
+                        _roots(init[1], st.value) & params:
+                    cfg[t.attr] = st
+        if len(cfg) < 3:
+            raise AnalysisError(f"{rep.prop}/{rid}: only {len(cfg)} configuration attributes found in {cname}.__init__")
+        total += len(cfg)
+        hits: Dict[str, List[str]] = {}
+        for c in prog.mro(ci):
+            for mname, fn in sorted(c.methods.items()):
+                if mname == "__init__":
+                    continue
+                for attr, node, how in _self_mutations(fn):
+                    if attr in cfg:
+                        # `self.a = self.a` / list(self.a): the same value again
+                        p = parent(node)
+                        if how == "assign" and isinstance(p, ast.Assign) and unparse(p.value) in (f"self.{attr}", f"list(self.{attr})", f"tuple(self.{attr})", f"str(self.{attr})"):
+                            continue
+                        hits.setdefault(attr, []).append(f"{c.qual}.{mname}:{node.lineno} ({how})")
+        for attr in sorted(cfg):
+            rep.add(rid, f"configuration:{cname}.{attr}:set by the constructor only", attr not in hits,
+                    f"self.{attr} comes from a constructor argument and is changed again in {hits.get(attr)}: later calls on the same wrapper object "
+                    f"generate for another configuration than the one it was built with", f"{ci.mod.rel}:{cfg[attr].lineno}")
+    rep.units["configuration_attributes"] = total
